@@ -38,6 +38,7 @@ class Contract:
     # clauses assumed at call sites but NOT proved by pyvc: each names the bounded lemma that
     # checks it on the real function; obligations that used one are "discharged modulo bounded"
     assumed_ensures: list[tuple[str, str]] = field(default_factory=list)
+    defaults: dict[str, Any] = field(default_factory=dict)  # default values of optional parameters
 
     def clauses(self):
         out = []
@@ -47,6 +48,13 @@ class Contract:
             else:
                 out.append(('support', e))
         return out
+
+
+class VariantSet:
+    """contracts of one function for different argument shapes (e.g. optional parameter None / given)"""
+
+    def __init__(self, variants):
+        self.variants = variants
 
 
 class ContractRegistry:
@@ -70,6 +78,11 @@ class ContractRegistry:
 
     def get(self, key):
         c = self.contracts.get(key)
+        if c is None:
+            # variants  key#name : call sites pick the first whose `when` guard fits (resolved by the caller)
+            vs = [v for k, v in self.contracts.items() if k.split('#', 1)[0] == key and '#' in k]
+            if vs:
+                return VariantSet(vs)
         if c is not None and c.inline:
             return None
         return c
@@ -281,7 +294,7 @@ def bind_params(ip: Interp, c: Contract, recv, args, kwargs, n) -> dict:
         elif name in kwargs:
             env[name] = coerce_arg(ip, kwargs[name], c.sig[name], n)
         else:
-            d = getattr(c, 'defaults', {}).get(name, _MISSING) if hasattr(c, 'defaults') else _MISSING
+            d = c.defaults.get(name, _MISSING)
             if d is _MISSING:
                 ip.oos(f'call of {c.key}: missing argument {name}', n)
             env[name] = d
@@ -305,7 +318,27 @@ def havoc_paths(ip: Interp, env: dict, paths: list[str], hint: str):
             set_(new)
 
 
-def apply_contract(ip: Interp, c: Contract, recv, args, kwargs, n):
+def pick_variant(ip: Interp, vs: VariantSet, recv, args, kwargs, n) -> Contract:
+    for c in vs.variants:
+        try:
+            env = bind_params(ip, c, recv, args, kwargs, n)
+        except OutOfSubset:
+            continue
+        ok = True
+        for name, sortname in c.sig.items():
+            v = env.get(name)
+            if sortname.strip() == 'None' and v is not None:
+                ok = False
+            if sortname.strip() != 'None' and v is None and not sortname.strip().startswith(('Val', 'any')):
+                ok = False
+        if ok:
+            return c
+    ip.oos(f'no contract variant fits this call of {vs.variants[0].key}', n)
+
+
+def apply_contract(ip: Interp, c, recv, args, kwargs, n):
+    if isinstance(c, VariantSet):
+        c = pick_variant(ip, c, recv, args, kwargs, n)
     p = ip.p
     env = bind_params(ip, c, recv, args, kwargs, n)
     short = c.key.split(':')[-1]
@@ -342,6 +375,10 @@ def apply_contract(ip: Interp, c: Contract, recv, args, kwargs, n):
             p.assume(ip.w.exc.in_range(cid))
             p.assume(z3.Not(ip.w.exc.is_sub(cid, 'ParseException')))
             exc = ExcV(cid, p.fresh('eid', z3.IntSort()), origin=f'callee:{short}:other')
+            inside = p.fresh('raised_inside', z3.BoolSort())
+            # only a TypeError can be an argument-binding failure of the call itself
+            p.assume(z3.Or(inside, ip.w.exc.is_sub(cid, 'TypeError')))
+            exc.info['inside'] = inside
             env['exc'] = exc
             for clause in c.propagates:
                 if clause != 'other':
